@@ -117,10 +117,18 @@ def rule_b(ctx):
         raise AnalysisError(f'{cls_fq}.{meth} vanished')
       rets = [A.unparse(n.value) for n in ast.walk(m.node) if isinstance(n, ast.Return)]
       ctx.ob('C07.b', m.fq, rets == [want], f'{meth} is {want}', m.loc, f'returns {rets}')
-  m = idx.lookup_method(S.DICT, 'copy')
-  rets = [A.unparse(n.value) for n in ast.walk(m.node) if isinstance(n, ast.Return)]
-  ctx.ob('C07.b', m.fq, rets == ['self.sym_clone(deep=False)'], 'Dict.copy is a shallow symbolic clone',
-         m.loc, f'returns {rets}')
+  for cls_fq in (S.DICT, S.LIST):
+    m = idx.lookup_method(cls_fq, 'copy')
+    if m is None or idx.enclosing_class(m).fq != cls_fq:
+      # the builtin copy() of list/dict returns a plain container: the symbolic class overrides it
+      ctx.ob('C07.b', f'{cls_fq}.copy', False, f'{cls_fq.split(".")[-1]}.copy is overridden as a shallow symbolic clone',
+             idx.cls(cls_fq).loc, 'copy() is inherited from the builtin: it returns a plain container')
+      continue
+    rets = [A.unparse(n.value) for n in ast.walk(m.node) if isinstance(n, ast.Return)]
+    ctx.ob('C07.b', m.fq, rets == ['self.sym_clone(deep=False)'],
+           f'{cls_fq.split(".")[-1]}.copy is a shallow symbolic clone (the two containers agree; copy.copy is one too)',
+           m.loc, f'returns {rets}: the copy is built by the constructor with default flags - a sealed, '
+           f'accessor_writable=False or partial container copies into an ordinary one')
   f = idx.func(S.SYMBOLIC + '.sym_clone')
   g = C.cfg_of(f.node)
   problems = []
